@@ -757,7 +757,8 @@ func (c *Conn) finish(r *Ctx, stream uint32, err error) {
 		atomic.AddInt32(&c.openStreams, -1)
 	}
 
-	c.deletePending(stream)
+	// dispatch holds r, which is the lock deletePending would take.
+	c.dropPending(stream, r)
 
 	r.markFinished()
 	r.resolve(err)
@@ -1001,7 +1002,9 @@ func (c *Conn) writeRequest(ctx *Ctx) error {
 		c.setLastErr(err)
 		// if we had any error, remove it from the reqQueued.
 		c.dequeueReq(id)
-		c.deletePending(id)
+		// ctx is still held here: the body is only handed over after the
+		// headers are out.
+		c.dropPending(id, ctx)
 
 		return err
 	}
@@ -1061,6 +1064,12 @@ func (c *Conn) signalWindow() {
 }
 
 func (c *Conn) deletePending(id uint32) {
+	c.dropPending(id, nil)
+}
+
+// dropPending is deletePending for a caller that already holds held: the Ctx
+// lock is not reentrant, and taking it again deadlocks the loop that does.
+func (c *Conn) dropPending(id uint32, held *Ctx) {
 	c.sendLck.Lock()
 	pb := c.pending[id]
 	delete(c.pending, id)
@@ -1070,13 +1079,16 @@ func (c *Conn) deletePending(id uint32) {
 		return
 	}
 
-	// Taking the Ctx is what makes this safe: a request that has already been
-	// handed back to its caller is theirs to close, and releasing it does.
-	if !pb.ctx.acquireFor(c, id) {
-		return
-	}
+	if pb.ctx != held {
+		// Taking the Ctx is what makes this safe: a request that has already
+		// been handed back to its caller is theirs to close, and releasing it
+		// does.
+		if !pb.ctx.acquireFor(c, id) {
+			return
+		}
 
-	defer pb.ctx.release()
+		defer pb.ctx.release()
+	}
 
 	c.closeBodyStream(pb)
 }
